@@ -10,7 +10,6 @@ import (
 	"strconv"
 	"strings"
 	"time"
-	"unicode"
 
 	"github.com/asticode/go-astikit"
 )
@@ -35,6 +34,9 @@ var ttmlLanguageMapping = astikit.NewBiMap().
 	Set(ttmlLanguageFrench, LanguageFrench).
 	Set(ttmlLanguageJapanese, LanguageJapanese).
 	Set(ttmlLanguageNorwegian, LanguageNorwegian)
+
+// XML white space (the only characters that can be indentation between tags)
+const ttmlXMLWhitespace = " \t\r\n"
 
 // TTML Clock Time Frames and Offset Time
 var (
@@ -192,7 +194,7 @@ func (i *TTMLInItems) UnmarshalXML(d *xml.Decoder, start xml.StartElement) (err 
 			}
 			*i = append(*i, e)
 		} else if b, ok := t.(xml.CharData); ok {
-			if str := string(b); len(strings.TrimSpace(str)) > 0 {
+			if str := string(b); len(strings.Trim(str, ttmlXMLWhitespace)) > 0 {
 				*i = append(*i, TTMLInItem{Text: str})
 			}
 		}
@@ -430,7 +432,7 @@ func ReadFromTTML(i io.Reader) (o *Subtitles, err error) {
 		// Remove items identation
 		lines := strings.Split(ts.Items, "\n")
 		for i := 0; i < len(lines); i++ {
-			lines[i] = strings.TrimLeftFunc(lines[i], unicode.IsSpace)
+			lines[i] = strings.TrimLeft(lines[i], ttmlXMLWhitespace)
 		}
 
 		// Unmarshal items
